@@ -120,6 +120,7 @@ class Workspace:
         return os.path.join(self.root, p)
 
     def write(self, p, data):
+        os.makedirs(os.path.dirname(self.path(p)), exist_ok=True)
         with open(self.path(p), "wb") as f:
             f.write(data)
 
